@@ -31,16 +31,24 @@ func fixedCases() []*Prog {
 				Typedefs:  []*Typedef{{Alias: "Loop0", Type: bad("Loop1")}, {Alias: "Loop1", Type: bad("Loop0")}},
 				Constants: []*Constant{{Name: "k", Type: baseType("i32"), Value: &CV{K: "x", Str: "Loop0.X"}}}},
 		}})
-	// Probe outside the hypotheses of resolve_const_binding_partial (saneNames): a definition named
-	// like a type keyword.  `T` is list<i32>; `T.X` reaches `enum list` through getEnum's fall-back
-	// `getEnumVisited(ast, x.Type.Name, seen)`.  Recorded, not raised (docs/C05.md, Defects 2).
+	// Regression (fixed in /repo 05813e1): a definition named like a type keyword.  `T` is list<i32>;
+	// the old getEnum continued with the keyword `list` as a name and bound `T.X` to `enum list`.
 	out = append(out, &Prog{
-		Root: 0, ISeed: 7, Expect: "undefvalue", Shape: "err:keyword-named-enum-behind-container-typedef", Fixed: true, Observe: true,
+		Root: 0, ISeed: 7, Expect: "undefvalue", Shape: "err:keyword-named-enum-behind-container-typedef", Fixed: true,
 		Files: []*File{
 			{Path: "main.thrift",
 				Enums:     []*Enum{{Name: "list", Values: []EnumVal{{"X", 0}}}},
 				Typedefs:  []*Typedef{{Alias: "T", Type: &TypeX{K: "l", Val: baseType("i32"), Inc: -1, TFile: -1}}},
 				Constants: []*Constant{{Name: "c", Type: baseType("i32"), Value: &CV{K: "x", Str: "T.X"}}}},
+		}})
+	// the same with a base type keyword
+	out = append(out, &Prog{
+		Root: 0, ISeed: 7, Expect: "undefvalue", Shape: "err:keyword-named-enum-behind-base-typedef", Fixed: true,
+		Files: []*File{
+			{Path: "main.thrift",
+				Enums:     []*Enum{{Name: "i32", Values: []EnumVal{{"X", 0}}}},
+				Typedefs:  []*Typedef{{Alias: "T", Type: baseType("i32")}},
+				Constants: []*Constant{{Name: "c", Type: baseType("i64"), Value: &CV{K: "x", Str: "T.X"}}}},
 		}})
 	// the same shape without the dotted enum: correctly rejected
 	out = append(out, &Prog{
